@@ -266,9 +266,23 @@ impl<'a> SendLastStateProofProcess<'a> {
                             new_last_headers
                         } else {
                             let required_count = last_n_blocks - last_n_count;
+                            // The request starts at an older remembered block when less than
+                            // last n blocks are new: only the blocks before the new ones are
+                            // taken from the previous last headers (the others are in the new
+                            // ones, or they are replaced by a fork).
+                            let first_new_number =
+                                new_last_headers.first().map(|header| header.number());
+                            let old_last_headers = old_last_headers
+                                .iter()
+                                .filter(|header| {
+                                    first_new_number
+                                        .map(|number| header.number() < number)
+                                        .unwrap_or(true)
+                                })
+                                .collect::<Vec<_>>();
                             let old_last_headers_len = old_last_headers.len();
                             old_last_headers
-                                .iter()
+                                .into_iter()
                                 .skip(old_last_headers_len.saturating_sub(required_count))
                                 .map(ToOwned::to_owned)
                                 .chain(new_last_headers)
